@@ -384,7 +384,9 @@ def plugin_state(plugin):
     return plugin.export_state() if hasattr(plugin, 'export_state') else None
 
 
-VOLATILE_KEYS = ('trace', 'wall_s', 'stall_s')      # diagnostics some runners attach to an outcome: present or not / different from run to run
+VOLATILE_KEYS = ('trace', 'wall_s', 'stall_s', 'decoTrace')      # diagnostics some runners attach to an outcome: present or not / different from run to run
+# ('decoTrace', C11 / C10: the statement trace of the class decoration is attached to the ONE case that made the generated module load;
+#  which case that is depends on what ran before - an observation of the harness' module cache, not an outcome of the library)
 
 
 def default_same_outcome(case, a, b):
